@@ -29,7 +29,9 @@ func c01Patterns() []string {
 		"||пример.рф^", "реклама", "/реклама/", "/ads/баннер", "ёж",
 		// scheme-prefixed patterns: for host-name requests they are applied to the synthesised http:// URL,
 		// and their first shortcut windows lie inside the scheme
-		"http://example.org^", "http://example", "http://a.com", "http://sub.example.org^", "://example.org", "https://a.com/"}
+		"http://example.org^", "http://example", "http://a.com", "http://sub.example.org^", "://example.org", "https://a.com/",
+		// patterns that reach into the fragment of a URL
+		"/app#!/promo-page", "||example.org/#promo", "page.html#top", "/ads/x.js#frag"}
 	for _, c := range windowColliders {
 		p = append(p, c[0], c[1], "/"+c[0]+"/x", c[1]+"^")
 	}
@@ -46,7 +48,8 @@ func c01URLs() []string {
 		"https://www.example.org/ads/", "http://1.2.3.4/ab", "http://example.org/ads/x.js?a=b&c=d", "ws://x.com/ads", "http://x.com/ads/ads/ads/x.js",
 		"http://example.org/example.org/example.org", "https://google.com", "http://a.com", "http://x.com/ad", "http://adsa6",
 		"http://пример.рф/реклама", "http://x.com/ads/баннер.gif", "http://x.com/РЕКЛАМА/ёж", "http://localhost/ads/x.js",
-		"http://example.org/\u023a/adsa6", "http://x.com/\u023e\u023a\u023e/q?adsgp", "http://x.com/\u212a\u212a/banner_ad", "http://Example.ORG/ads/adsa6"}
+		"http://example.org/\u023a/adsa6", "http://x.com/\u023e\u023a\u023e/q?adsgp", "http://x.com/\u212a\u212a/banner_ad", "http://Example.ORG/ads/adsa6",
+		"https://example.org/#promo", "http://x.com/app#!/promo-page", "http://x.com/page.html#top", "http://example.org/ads/x.js#frag", "http://x.com/q#!/promo-page/app#!/promo"}
 	for _, c := range windowColliders {
 		u = append(u, "http://x.com/"+c[0], "http://x.com/q/"+c[1], "http://x.com/"+c[0]+"/x/"+c[0], "http://"+c[1])
 	}
@@ -168,6 +171,10 @@ func genC01(t *rapid.T) c01Case {
 			cp := pick(t, "dcoll", domainColliders)
 			m.DPerm = append(m.DPerm, cp[rapid.IntRange(0, 1).Draw(t, "which")])
 		}
+		if chance(t, "zero-hash-domain", 12) {
+			// a $domain value whose hash is 0, the value the hash function returns for the empty string
+			m.DPerm = append(m.DPerm, pick(t, "zero-hash", zeroHashNames))
+		}
 		if wideMask(m.Pat) && !m.hasRestriction() {
 			m.DPerm = []string{"example.org"}
 		}
@@ -232,6 +239,9 @@ func genC01(t *rapid.T) c01Case {
 		}
 		if !q.Host && chance(t, "fixed-url", 3) {
 			q.URL = pick(t, "fixed", c01FixedURLs)
+		}
+		if chance(t, "zero-hash-src", 15) && !q.Host {
+			q.Src = "http://" + pick(t, "zsub", []string{"", "www."}) + pick(t, "zero-hash-src-name", zeroHashNames) + "/"
 		}
 		if chance(t, "colliding-src", 12) && !q.Host {
 			cp := pick(t, "scoll", domainColliders)
